@@ -621,6 +621,36 @@ def _container_only_waited(own, name):
     return None
 
 
+
+def rule_linger_wakeup(ctx):
+    R = "flush"
+    fi = ctx.fn(f"{ACC}.drain_by_nodes")
+    c = ctx.cfg(fi)
+    # a batch left behind because its linger time has not elapsed is only sent if something wakes the sender later: whenever the drain
+    # computed a remaining linger time it arms the wake-up timer -- whatever else is true (closing, nothing drained, ...): flush(),
+    # close() and stop() wait for exactly those batches
+    lt = [t for t in c.nodes if t.kind == "test" and unparse(t.ast) == "remaining_linger_time" and not c.enclosing(t, types=(ast.For,), role="body")]
+    cl = [n for n in c.nodes if n.kind == "call" and call_attr(n.ast) == "call_later"]
+    ok = len(lt) == 1 and len(cl) == 1
+    if ok:
+        armed = c.reachable([m for m, l in lt[0].succ if l == "T"], avoid=set(cl), exc=False, include_src=True)
+        ok = c.exit not in armed
+        # and the test itself is on every path out of the partition loop
+        loops = [h for h in c.nodes if h.kind == "fornext"]
+        outs = [m for h in loops for m, l in h.succ if l == "F"]
+        ok = ok and bool(outs) and c.exit not in c.reachable(outs, avoid=set(lt), exc=False, include_src=True)
+        a = cl[0].ast.args
+        ok = ok and len(a) >= 2 and unparse(a[0]) == "remaining_linger_time" and unparse(a[1]).endswith("_wakeup")
+    ctx.ob(R, fi, fi.node, ok, "drain_by_nodes can leave a lingering batch in the accumulator without arming the wake-up timer for its remaining linger time: "
+                               "nothing sends it later and flush()/stop() wait for ever", text="linger-wakeup-armed")
+    sk = [t for t in c.nodes if t.kind == "test" and unparse(t.ast) == "batch_remaining_linger"]
+    ok2 = len(sk) == 1
+    if ok2:
+        arm = c.reachable([m for m, l in sk[0].succ if l == "T"], avoid=[x for x in c.nodes if x.kind == "loop"], exc=False, include_src=True)
+        ok2 = any(n.kind == "store" and unparse(n.ast) == "remaining_linger_time" for n in arm) and not any(n.kind == "call" and call_attr(n.ast) == "_pop_batch" for n in arm)
+    ctx.ob(R, fi, fi.node, ok2, "a batch skipped for lingering does not contribute its remaining time to the wake-up", text="linger-time-recorded")
+
+
 def run(ctx):
     rep = ctx.rep
     rep.explanation = ("C02 structural clauses: once-only resolution guards, no loop-carried state in per-record metadata, typestate of a "
@@ -633,6 +663,7 @@ def run(ctx):
     c01.rule_no_expire(ctx)
     rule_reply_shape(ctx)
     rule_flush(ctx)
+    rule_linger_wakeup(ctx)
     rule_fail_all(ctx)
     rule_future_ownership(ctx)
     rep.nd("'within bounded time after faults cease' (liveness)")
